@@ -97,13 +97,7 @@ impl CliWorld {
       std::fs::write(&p, bytes).unwrap_or_else(|e| panic!("write {}: {e}", p.display()));
     };
     w("sgconfig.yml", self.sgconfig().as_bytes());
-    for d in self.rule_dirs.iter().chain(self.util_dirs.iter()) {
-      std::fs::create_dir_all(root.join(&d.name)).expect("mkdir");
-      for f in &d.files {
-        let text = f.docs.iter().map(|r| r.to_yaml()).collect::<Vec<_>>().join("---\n");
-        w(&format!("{}/{}", d.name, f.name), text.as_bytes());
-      }
-    }
+    self.write_rules(root, false);
     if self.with_tests {
       self.write_tests(root, false);
     }
@@ -111,6 +105,33 @@ impl CliWorld {
       w(".ignore", ig.as_bytes());
     }
     self.write_sources(root);
+  }
+
+  /// Rule and utility files. `earlier`: an earlier revision of the project in which every
+  /// string fix reads differently (so that snapshots taken then are outdated later).
+  pub fn write_rules(&self, root: &Path, earlier: bool) {
+    for d in self.rule_dirs.iter().chain(self.util_dirs.iter()) {
+      std::fs::create_dir_all(root.join(&d.name)).expect("mkdir");
+      for f in &d.files {
+        let text = f
+          .docs
+          .iter()
+          .map(|r| {
+            let mut r2 = r.clone();
+            if earlier {
+              if let Some(fx) = &r2.fix {
+                if !fx.starts_with('\n') {
+                  r2.fix = Some(format!("{fx}/*earlier*/"));
+                }
+              }
+            }
+            r2.to_yaml()
+          })
+          .collect::<Vec<_>>()
+          .join("---\n");
+        std::fs::write(root.join(format!("{}/{}", d.name, f.name)), text).expect("write rule file");
+      }
+    }
   }
 
   /// Rule tests; `partial`: rules with several invalid cases get only the first one (an
